@@ -231,3 +231,74 @@ def establish_test_and_set(ctx: Context, rule: str, tree_filter: tuple[str, ...]
                             f"the not-yet-established test guarding `{norm(st.targets[0])} = ...` is " + ("missing" if not test_seen else f"made before `{lock}` is taken and not repeated under it") +
                             ": two requests handed the same unconnected connection both establish it - the first stream is overwritten, stays open and is no longer counted"))
     rep.floor(rule, "stores installing a lazily established inner connection", n, 6)
+
+
+def read_does_not_close(ctx: Context, rule: str) -> None:
+    """Reading a response never closes it: only `close()` / `aclose()` (called by the caller's context exit or by the
+    convenience API) end the exchange.  For a 101 / CONNECT-2xx response the body is empty and the caller goes on to use the
+    network stream: a read that closes the response closes the socket under that stream."""
+    rep = ctx.rep
+    resp = ctx.prog.module("httpcore._models").classes.get("Response")
+    if resp is None:
+        raise AnalysisError("anchor vanished: Response")
+    n = 0
+    for name, f in resp.methods.items():
+        if name in ("close", "aclose", "__init__"):
+            continue
+        n += 1
+        closers = [c for c in own_nodes(f.node) if isinstance(c, ast.Call) and isinstance(c.func, ast.Attribute) and c.func.attr in ("close", "aclose")
+                   and norm(c.func.value) in ("self", "self.stream")]
+        rep.ob(rule, fkey("shared", f, "does-not-close"), not closers, where(f, closers[0] if closers else None),
+               f"Response.{name} does not end the exchange" if not closers else
+               f"Response.{name} calls `{ast.unparse(closers[0])}`: reading the (empty) body of a 101 / CONNECT response closes the connection under the stream that was handed to the caller")
+    rep.floor(rule, "Response methods other than close/aclose", n, 4)
+
+
+EXTERNAL_COROUTINES = {"sleep", "aclose", "send", "send_all", "receive", "receive_some", "do_handshake", "connect_tcp", "connect_unix", "open_tcp_stream", "open_unix_socket", "wrap",
+                       "acquire", "wait", "checkpoint"}
+
+
+def coroutine_calls_awaited(ctx: Context, rule: str, only: tuple[str, ...] | None = None) -> None:
+    """Every call whose callee is a coroutine function (an `async def` of the package that is not an async generator, or one
+    of the runtime coroutines of anyio/trio named in the table) is awaited where it is made.  A coroutine that is created and
+    returned / dropped never runs: the async API silently skips an operation (a pause, a close, a send) that the synchronous
+    twin performs."""
+    rep = ctx.rep
+    cg = ctx.callgraph
+    n = 0
+    bad_total = 0
+    mods = [m for m in ctx.names("async").modules()] + [ctx.prog.module(x) for x in
+            ("httpcore._backends.auto", "httpcore._backends.anyio", "httpcore._backends.trio", "httpcore._backends.mock", "httpcore._synchronization", "httpcore._models", "httpcore._trace")]
+    for m in mods:
+        for f in m.all_functions():
+            if only is not None and f.name not in only:
+                continue
+            for c in own_nodes(f.node):
+                if not isinstance(c, ast.Call):
+                    continue
+                is_coro = False
+                for cs in cg.by_node.get(id(c), []):
+                    if cs.kind != "call":
+                        continue
+                    for t in cs.repo_targets():
+                        if t.is_async and not any(isinstance(y, (ast.Yield, ast.YieldFrom)) for y in own_nodes(t.node)) and \
+                                not any("asynccontextmanager" in norm(d) for d in t.node.decorator_list):
+                            is_coro = True
+                if not is_coro and f.is_async and isinstance(c.func, ast.Attribute) and c.func.attr in EXTERNAL_COROUTINES:
+                    root = (chain(c.func) or [""])
+                    # runtime objects of the async libraries: module functions and the wrapped stream / primitives
+                    if root[0] in ("anyio", "trio") or (len(root) >= 3 and root[0] == "self" and root[1] in ("_stream", "_backend", "_anyio_lock", "_trio_lock", "_anyio_event", "_trio_event",
+                                                                                                             "_anyio_semaphore", "_trio_semaphore")):
+                        is_coro = c.func.attr not in ("release", "set")
+                if not is_coro:
+                    continue
+                n += 1
+                p = parent(c)
+                if isinstance(p, ast.Await):
+                    continue
+                bad_total += 1
+                rep.ob(rule, fkey("async", f, f"awaited:{norm(c.func)[:50]}"), False, where(f, c),
+                       f"`{ast.unparse(c)[:60]}` creates a coroutine that is not awaited here: the operation never runs (or runs at some later, unrelated point)")
+    if not bad_total:
+        rep.ob(rule, "async|*|coroutine-calls-awaited", True, "httpcore/", f"all {n} calls of coroutine functions are awaited where they are made")
+    rep.floor(rule, "coroutine calls examined", n, 20 if only is None else 1)
